@@ -8,6 +8,15 @@
 //! `trimc` is the value-class stream of `trim_zeros`: the case carries a list of class codes (+0, -0, NaN, subnormals, inf, extreme
 //! integers, zero-looking strings …); the model sees 0 for the two zero classes and `position+1` otherwise, so its answer names the
 //! surviving slice, which every element type must reproduce bit-wise.
+//!
+//! Robustness streams, part 2: `seq call / call / …` lines run several calls back to back on the executing thread (hidden state:
+//! after a delete / insert / repeat request a DIFFERENT request of the same length — also with the same sum, xor, polynomial hash
+//! (31, 33, 37, 131, 257) or 32-bit FNV fingerprint, found by a birthday search at generation time —, a refused call followed by a
+//! valid one, A–B–A); `n call…` lines are huge requests (products of request size and lane length above 2^26, more than 65 536
+//! inserted values, lanes of 20 000 … 70 000 elements along an axis) judged by the harness-native index-filter reference `oracle`,
+//! which is compared with the full model answer on EVERY other structural case of the run (`oracle_report` lines); `exec`
+//! additionally re-runs the previous case after a share of the cases (implicit A–B–A).  `append_self` / `insert_self` pass the
+//! receiver itself as the `values` argument (aliasing).
 use arrharness::*;
 use std::panic::{catch_unwind, AssertUnwindSafe};
 
@@ -253,6 +262,237 @@ fn gen(tier: &str, seed: u64, out: &mut dyn FnMut(String)) {
         out(format!("trim {}:{}", len, show_list(&e)));
     } }
     out("trim i2,0".into()); out("trim 1,4:0,1,2,0".into()); out("trim 1,1,1:0".into());
+    // ---- robustness streams, part 2: hidden state, huge sizes, exact lengths and values, aliasing, long lists and high ranks
+    gen_part2(thorough, &mut rng, out);
+}
+
+
+// ------------------------------------------------------------------------------------------------ generator, part 2
+
+fn seq(calls: &[String]) -> String { format!("seq {}", calls.join(" / ")) }
+
+fn fnv32(bytes: impl Iterator<Item = u8>, one_a: bool) -> u32 {
+    bytes.fold(0x811c_9dc5u32, |h, b| if one_a { (h ^ b as u32).wrapping_mul(0x0100_0193) } else { h.wrapping_mul(0x0100_0193) ^ b as u32 })
+}
+/// Pairs of index lists of length `len` (entries below `bound`, each list without repetition) that are DIFFERENT SETS but have the same
+/// 32-bit FNV fingerprint — found by a birthday search (about 2^17 lists).  `kind`: 0 = FNV-1a over the 8 little-endian bytes of every
+/// index, 1 = FNV-1a over 4 bytes, 2 = FNV-1 over 8 bytes, 3 = FNV-1a over the decimal text "i,j,k".
+fn fnv_collisions(rng: &mut Rng, len: usize, bound: usize, kind: usize, want: usize) -> Vec<(Vec<usize>, Vec<usize>)> {
+    let mut seen: std::collections::HashMap<u32, Vec<usize>> = std::collections::HashMap::new();
+    let mut found = vec![];
+    for _ in 0..3_000_000usize {
+        let mut l: Vec<usize> = vec![];
+        while l.len() < len { let x = rng.below(bound); if !l.contains(&x) { l.push(x); } }
+        let h = match kind {
+            0 => fnv32(l.iter().flat_map(|i| (*i as u64).to_le_bytes()), true),
+            1 => fnv32(l.iter().flat_map(|i| (*i as u32).to_le_bytes()), true),
+            2 => fnv32(l.iter().flat_map(|i| (*i as u64).to_le_bytes()), false),
+            _ => fnv32(show_list(&l).bytes(), true),
+        };
+        if let Some(prev) = seen.get(&h) {
+            let (mut a, mut b) = (prev.clone(), l.clone()); a.sort(); b.sort();
+            if a != b { found.push((prev.clone(), l.clone())); if found.len() >= want { break; } }
+        } else { seen.insert(h, l); }
+    }
+    found
+}
+
+/// a different request of the same length that a weakly keyed memo could confuse with `l` (entries stay below `bound`, the SET differs):
+/// same length only / same sum / same xor / same polynomial hash h = h*m + x for m = 31, 33, 37, 131, 257 / same sorted prefix
+fn confusable(rng: &mut Rng, l: &[usize], bound: usize) -> Vec<(&'static str, Vec<usize>)> {
+    let mut v: Vec<(&'static str, Vec<usize>)> = vec![];
+    let k = l.len();
+    let differs = |a: &[usize], b: &[usize]| { let (mut x, mut y) = (a.to_vec(), b.to_vec()); x.sort(); x.dedup(); y.sort(); y.dedup(); x != y };
+    let fresh: Vec<usize> = { let mut p = rng.perm(bound); p.truncate(k); p };
+    if differs(l, &fresh) { v.push(("same length", fresh)); }
+    if k >= 2 {
+        for q in 0..k - 1 {
+            if l[q] + 1 < bound && l[q + 1] >= 1 { let mut t = l.to_vec(); t[q] += 1; t[q + 1] -= 1; if differs(l, &t) { v.push(("same sum", t)); break; } }
+        }
+        for bit in [1usize, 2, 4, 8, 16] { let mut t = l.to_vec(); t[0] ^= bit; t[k - 1] ^= bit; if t[0] < bound && t[k - 1] < bound && differs(l, &t) { v.push(("same xor", t)); break; } }
+        for m in [31usize, 33, 37, 131, 257] {
+            for q in 0..k - 1 {
+                if l[q] >= 1 && l[q + 1] + m < bound { let mut t = l.to_vec(); t[q] -= 1; t[q + 1] += m; if differs(l, &t) { v.push(("same polynomial hash", t)); break; } }
+                if l[q] + 1 < bound && l[q + 1] >= m { let mut t = l.to_vec(); t[q] += 1; t[q + 1] -= m; if differs(l, &t) { v.push(("same polynomial hash", t)); break; } }
+            }
+        }
+        // same smallest / largest entry, same first and last entry
+        let mut t = l.to_vec(); let mid = k / 2; t[mid] = (t[mid] + 1 + rng.below(bound - 1)) % bound; if differs(l, &t) { v.push(("same ends", t)); }
+    }
+    v
+}
+
+fn gen_part2(thorough: bool, rng: &mut Rng, out: &mut dyn FnMut(String)) {
+    out("oracle_report".to_string());
+    // ---- 6a. hidden state: after every request a DIFFERENT request of the same length on the same array (and on another array)
+    for (s, ax) in [(vec![600usize], None), (vec![2, 300], Some(1usize)), (vec![300, 2], Some(0)), (vec![2, 300], None), (vec![3, 40, 2], Some(1)), (vec![12], None), (vec![40], None), (vec![3, 4], Some(1)), (vec![4, 3], Some(0))] {
+        let a = tag(&s); let n: usize = s.iter().product();
+        let bound = match ax { Some(x) => s[x], None => n }; let axs = show_opt(&ax);
+        let lens: Vec<usize> = if bound >= 100 { vec![2, 3, 6, 21, 65] } else if bound >= 12 { vec![2, 3, 6] } else { vec![1, 2] };
+        for &k in &lens { for _ in 0..(if thorough { 4 } else if bound >= 100 { 1 } else { 2 }) {
+            let l = distinct(rng, bound, k);
+            for (_why, t) in confusable(rng, &l, bound) {
+                out(seq(&[format!("delete {a} {} {axs}", show_list(&l)), format!("delete {a} {} {axs}", show_list(&t)), format!("delete {a} {} {axs}", show_list(&l))]));
+                if ax.is_none() && s.len() == 1 {
+                    out(seq(&[format!("insert {a} {} {}", show_list(&l), tag_off(&[k], 100)), format!("insert {a} {} {}", show_list(&t), tag_off(&[k], 100)), format!("insert_delete {a} {} {}", show_list(&l), tag_off(&[k], 100)), format!("insert_delete {a} {} {}", show_list(&t), tag_off(&[k], 100))]));
+                }
+            }
+            // the same request on another array of the same element count / another length (a memo that ignores the array)
+            let b = match ax { Some(x) => { let mut t = s.clone(); t[x] += 7; tag_off(&t, 5000) } None => tag_off(&[n + 7], 5000) };
+            out(seq(&[format!("delete {a} {} {axs}", show_list(&l)), format!("delete {b} {} {axs}", show_list(&l)), format!("delete {a} {} {axs}", show_list(&l))]));
+        } }
+        // repeat: count vectors of the same length, the same sum, permuted
+        if let Some(x) = ax { if s[x] <= 40 {
+            let d = s[x];
+            for _ in 0..3 {
+                let c1: Vec<usize> = (0..d).map(|_| rng.below(3)).collect(); let mut c2 = c1.clone(); c2.reverse(); let mut c3 = c1.clone(); c3[0] += 1; c3[d - 1] = (c3[d - 1] + 2) % 3;
+                out(seq(&[format!("repeat {a} {} {x}", show_list(&c1)), format!("repeat {a} {} {x}", show_list(&c2)), format!("repeat {a} {} {x}", show_list(&c3)), format!("repeat {a} {} {x}", show_list(&c1))]));
+            }
+        } }
+    }
+    // ---- 6b. index-list fingerprints: different requests of the same length with the same 32-bit FNV hash (birthday search)
+    for (kind, len, bound) in [(0usize, 6usize, 200usize), (1, 6, 200), (2, 6, 200), (3, 6, 200), (0, 3, 600), (0, 8, 64)] {
+        let pairs = fnv_collisions(rng, len, bound, kind, if thorough { 6 } else { 3 });
+        for (l, t) in pairs {
+            let a = tag(&[bound]); let b = tag(&[2, bound]); let c = tag(&[bound, 2]);
+            out(seq(&[format!("delete {a} {} none", show_list(&l)), format!("delete {a} {} none", show_list(&t)), format!("delete {a} {} none", show_list(&l))]));
+            out(seq(&[format!("delete {b} {} 1", show_list(&t)), format!("delete {b} {} 1", show_list(&l))]));
+            out(seq(&[format!("delete {c} {} 0", show_list(&l)), format!("delete {c} {} 0", show_list(&t))]));
+            out(seq(&[format!("insert {a} {} {}", show_list(&l), tag_off(&[len], 100)), format!("insert {a} {} {}", show_list(&t), tag_off(&[len], 100))]));
+        }
+    }
+    // ---- 6c. a refused call directly followed by valid calls on the same thread
+    for s in [vec![5usize], vec![2, 3], vec![3, 2, 2], vec![12], vec![4, 4]] {
+        let a = tag(&s); let nd = s.len(); let n: usize = s.iter().product(); let d = s[nd - 1];
+        let bads = vec![format!("delete {a} 0,{} {}", d, nd - 1), format!("delete {a} 1,{},0 none", n + 2), format!("delete {a} 0 {}", nd), format!("insert {a} 0,{} i2+100", n + 1), format!("insert {a} 0,1 i3+100"),
+                        format!("repeat {a} {} {}", show_list(&vec![1; d + 1]), nd - 1), format!("repeat {a} 2 {}", nd + 1), format!("repeat {a} 1,2,1,2,1,2,1 none"), format!("append {a} i2,2+100")];
+        let goods = vec![format!("delete {a} 0 {}", nd - 1), format!("delete {a} 1,0 none"), format!("delete {a} {} 0", s[0] - 1), format!("insert {a} 1,0 i2+100"), format!("insert_delete {a} 0,{n} i2+100"),
+                         format!("repeat {a} {} {}", show_list(&vec![2; d]), nd - 1), format!("repeat {a} 2 none"), format!("append {a} i2+100"), format!("delete {a} - none")];
+        for (q, bad) in bads.iter().enumerate() { for r in 0..(if thorough { goods.len() } else { 3 }) { out(seq(&[bad.clone(), goods[(q + 3 * r) % goods.len()].clone(), goods[(q + r + 1) % goods.len()].clone()])); } }
+        out(seq(&[bads[0].clone(), bads[3].clone(), goods[0].clone(), bads[5].clone(), goods[5].clone(), goods[3].clone()]));
+    }
+    // ---- 6d. A–B–A: a call, a different call, the first call again (seeded)
+    {
+        let mk = |rng: &mut Rng| -> String {
+            let nd = 1 + rng.below(3); let hi = if rng.below(3) == 0 { 17 } else { 4 };
+            let mut s: Vec<usize> = (0..nd).map(|_| 1 + rng.below(hi)).collect();
+            while s.iter().product::<usize>() > 400 { let p = rng.below(nd); s[p] = 1 + s[p] / 2; }
+            let a = tag(&s); let n: usize = s.iter().product(); let ax = rng.below(nd); let d = s[ax];
+            match rng.below(6) {
+                0 => format!("delete {a} {} {ax}", show_list(&(0..rng.below(d + 1)).map(|_| rng.below(d)).collect::<Vec<_>>())),
+                1 => format!("delete {a} {} none", show_list(&(0..rng.below(n.min(9) + 1)).map(|_| rng.below(n)).collect::<Vec<_>>())),
+                2 => { let k = 1 + rng.below(5); format!("insert {a} {} {}", show_list(&(0..k).map(|_| rng.below(n + 1)).collect::<Vec<_>>()), tag_off(&[k], 100)) }
+                3 => format!("repeat {a} {} {ax}", show_list(&(0..d).map(|_| rng.below(3)).collect::<Vec<_>>())),
+                4 => format!("repeat {a} {} none", rng.below(3)),
+                _ => format!("append {a} {}", tag_off(&[rng.below(4)], 100)),
+            }
+        };
+        for _ in 0..(if thorough { 1500 } else { 250 }) { let (a, b) = (mk(rng), mk(rng)); out(seq(&[a.clone(), b, a])); }
+    }
+    // ---- 7a. huge flat deletes: (number of distinct indices) x (elements) around and above 2^24 … 2^28; the model's flat delete is
+    // fast enough for two of them directly, the others go through the native reference
+    {
+        let mut plans: Vec<(usize, usize, bool)> = vec![(8300, 8200, true), (70000, 1000, true), (8200, 8200, false), (8200, 4100, false), (20000, 10000, false), (70000, 959, false), (70000, 958, false),
+                                                        (16385, 4097, false), (33000, 8200, false), (16385, 16384, false), (140000, 500, false), (65537, 1025, false)];
+        if thorough { plans.extend([(20000, 10000, true), (33000, 2034, true), (40000, 40000, false), (131072, 2048, false), (100000, 671, false), (100000, 672, true)]); }
+        for (n, k, direct) in plans {
+            let a = tag(&[n]); let set = distinct(rng, n, k);
+            let sps = spellings(rng, &set);
+            let pre = if direct { "" } else { "n " };
+            out(format!("{pre}delete {a} {} none", show_list(&sps[0])));
+            if !direct { out(format!("n delete {a} {} none", show_list(&sps[1]))); out(format!("n delete {a} {} none", show_list(&sps[3]))); if thorough { out(format!("n delete {a} {} none", show_list(&sps[2]))); } }
+        }
+        // the same through a higher-rank receiver (the flat form ravels first)
+        let set = distinct(rng, 16900, 4000); out(format!("n delete {} {} none", tag(&[130, 130]), show_list(&set)));
+        let set = distinct(rng, 36000, 1900); out(format!("n delete {} {} none", tag(&[40, 30, 30]), show_list(&set)));
+    }
+    // ---- 7b. huge deletes along an axis (the per-lane call sees lanes of 8 300 … 70 000 elements and up to 10 000 indices)
+    {
+        let mut plans: Vec<(Vec<usize>, usize, usize)> = vec![(vec![2, 20000], 1, 10000), (vec![2, 8300], 1, 8200), (vec![70000, 2], 0, 1000), (vec![2, 70000], 1, 960), (vec![3, 8200, 2], 1, 8199), (vec![130, 130], 1, 65), (vec![300, 300], 0, 150), (vec![2, 16385], 1, 4097)];
+        if thorough { plans.extend([(vec![20000, 2], 0, 10000), (vec![2, 2, 33000], 2, 2034), (vec![10, 11, 12, 13], 2, 7), (vec![5, 4, 10, 10, 10], 4, 3), (vec![129, 131], 0, 128), (vec![2, 40000], 1, 40000)]); }
+        for (s, ax, k) in plans {
+            let a = tag(&s); let set = distinct(rng, s[ax], k); let sps = spellings(rng, &set);
+            out(format!("n delete {a} {} {ax}", show_list(&sps[0]))); out(format!("n delete {a} {} {ax}", show_list(&sps[3])));
+        }
+    }
+    // ---- 7c. flat insert of very many (index, value) pairs: 1000 … 8193 directly, 16 385 … 70 000 (beyond 65 536) through the reference
+    {
+        let mut plans: Vec<(usize, usize, usize, bool)> = vec![(4, 1000, 5, true), (10, 1001, 3, true), (100, 4097, 11, true), (4, 8193, 5, true), (16, 16385, 7, false), (4, 32769, 5, false), (4, 70000, 5, false), (100, 65537, 9, false)];
+        if thorough { plans.extend([(4, 65536, 5, false), (4, 65537, 2, false), (1000, 66000, 1001, false), (0, 65600, 1, false), (4, 16385, 5, true), (4, 131073, 5, false)]); }
+        for (n, k, pool, direct) in plans {
+            let a = tag(&[n]);
+            let pos: Vec<usize> = if pool > n { (0..=n).collect() } else { (0..pool).map(|_| rng.below(n + 1)).collect() };
+            let idx: Vec<usize> = if pool > n { (0..k).map(|j| j % (n + 1)).collect() } else { (0..k).map(|_| *rng.pick(&pos)).collect() };
+            out(format!("{}insert {a} {} {}", if direct { "" } else { "n " }, show_list(&idx), tag_off(&[k], 100)));
+            if direct { out(format!("insert_delete {a} {} {}", show_list(&idx), tag_off(&[k], 100))); }
+        }
+        if thorough { let idx: Vec<usize> = (0..66000).map(|j| j % 5).collect(); out(format!("insert i4 {} {}", show_list(&idx), tag_off(&[66000], 100))); }
+    }
+    // ---- 7d. repeat / append / trim on huge arrays: the flat forms directly (linear model), the axis forms through the reference
+    for s in huge_shapes() {
+        let a = tag(&s); let nd = s.len(); let n: usize = s.iter().product(); let last = s[nd - 1];
+        out(format!("repeat {a} 2 none")); out(format!("append {a} {}", tag_off(&[70000], 1000000))); out(format!("append_self {a}"));
+        if last <= 300 { let c: Vec<usize> = (0..last).map(|_| rng.below(3)).collect(); out(format!("repeat {a} {} none", show_list(&c))); }
+        for ax in 0..nd {
+            // the crate's `split` is quadratic in the number of parts (3 s per call for 70 000): axes up to 3000 positions only
+            if s[ax] > 3000 { continue; }
+            let c: Vec<usize> = (0..s[ax]).map(|_| rng.below(3)).collect(); out(format!("n repeat {a} {} {ax}", show_list(&c)));
+            if n <= 70000 { out(format!("n repeat {a} 2 {ax}")); }
+        }
+        if nd == 1 { out(format!("trim {a}")); out(format!("n insert {a} {},0,{} i3+1000000", n, n / 2)); }
+    }
+    { let e: Vec<i64> = (0..70000).map(|k| if k < 30000 || k >= 66000 || k % 7 == 0 { 0 } else { k }).collect(); out(format!("trim 70000:{}", show_list(&e))); }
+    // ---- 8. exact lengths and values: every axis length 1..300 in a non-leading position; request sizes 31, 37, 1000, 1001; indices
+    // c + 2^8, c + 2^16, c + 2^32 (valid only after a narrowing cast: must be refused)
+    for l in 1..=300usize {
+        let a = tag(&[2, l]);
+        let k = 1 + rng.below(l.min(6)); let set = distinct(rng, l, k);
+        out(format!("delete {a} {} 1", show_list(&set)));
+        match l % 3 { 0 => out(format!("delete {a} {} 1", l - 1)), 1 => out(format!("repeat {a} 2 1")), _ => { let c: Vec<usize> = (0..l).map(|q| (q * 7 + l) % 3).collect(); out(format!("repeat {a} {} 1", show_list(&c))); } }
+        if l % 6 == 1 || l == 49 || thorough { let b = tag(&[3, l, 2]); out(format!("delete {b} {} 1", show_list(&set))); if l % 12 == 1 { out(format!("repeat {b} {} 1", show_list(&(0..l).map(|q| (q + l) % 3).collect::<Vec<_>>()))); } }
+        if l % 5 == 0 { out(format!("delete {} {} none", tag(&[l]), show_list(&distinct(rng, l, l / 2)))); }
+    }
+    for k in [31usize, 37, 1000, 1001] {
+        let n = 1200; let a = tag(&[n]);
+        out(format!("delete {a} {} none", show_list(&distinct(rng, n, k))));
+        out(format!("insert {a} {} {}", show_list(&(0..k).map(|_| rng.below(n + 1)).collect::<Vec<_>>()), tag_off(&[k], 5000)));
+        out(format!("delete {} {} 1", tag(&[2, 1100]), show_list(&distinct(rng, 1100, k))));
+        out(format!("repeat {} {} none", tag(&[3, k]), show_list(&(0..k).map(|_| rng.below(3)).collect::<Vec<_>>())));
+    }
+    for &p in &[19usize, 23, 29, 31, 37, 41, 43, 47, 49, 53, 97, 101, 127, 131, 251, 257] {
+        let a = tag(&[p]); out(format!("delete {a} {} none", show_list(&distinct(rng, p, p / 2)))); out(format!("repeat {a} {} 0", show_list(&(0..p).map(|q| q % 3).collect::<Vec<_>>())));
+        out(format!("insert {a} {} {}", show_list(&(0..p).map(|q| (q * 5) % (p + 1)).collect::<Vec<_>>()), tag_off(&[p], 1000)));
+    }
+    for s in [vec![5usize], vec![2, 3], vec![3, 4, 2], vec![300]] {
+        let a = tag(&s); let nd = s.len();
+        for c in [0usize, 1, 2] { for v in narrowing_images(c) {
+            out(format!("delete {a} {v} none")); out(format!("delete {a} 0,{v} {}", nd - 1)); out(format!("delete {a} {c} {v}")); out(format!("insert {a} {v} i1+100")); out(format!("insert {a} 0,{v} i2+100")); out(format!("repeat {a} 2 {v}"));
+        } }
+        // a refused index of that kind followed by the index it aliases
+        out(seq(&[format!("delete {a} {} none", (1usize << 32) + 1), format!("delete {a} 1 none"), format!("insert {a} {} i1+100", (1usize << 16) + 1), format!("insert {a} 1 i1+100")]));
+    }
+    // ---- 9. aliasing: the receiver itself as the `values` argument
+    for s in [vec![0usize], vec![1], vec![3], vec![17], vec![300], vec![4100], vec![2, 3], vec![0, 2], vec![3, 1, 2], vec![70, 70]] {
+        let a = tag(&s); let n: usize = s.iter().product();
+        out(format!("append_self {a}"));
+        if s.len() == 1 { out(format!("insert_self {a} 0")); out(format!("insert_self {a} {n}")); out(format!("insert_self {a} {}", show_list(&(0..n).rev().collect::<Vec<_>>()))); out(format!("insert_self {a} {}", show_list(&(0..n).map(|q| (q * 7) % (n + 1)).collect::<Vec<_>>()))); }
+        else { out(format!("insert_self {a} 0")); }
+    }
+    // ---- 10. ranks 5..8 and long unsorted requests
+    for s in [vec![2usize, 3, 2, 2, 3], vec![2, 1, 2, 2, 1, 2], vec![3, 2, 2, 1, 2, 2], vec![2, 2, 2, 2, 2, 2, 2], vec![1, 2, 1, 2, 2, 1, 2, 3], vec![2, 2, 1, 3, 1, 2, 2, 2]] {
+        let a = tag(&s); let nd = s.len(); let n: usize = s.iter().product();
+        for ax in 0..nd { let d = s[ax];
+            for sub in subsets(d) { out(format!("delete {a} {} {ax}", show_list(&sub))); }
+            let req: Vec<usize> = (0..(3 + rng.below(4))).map(|_| rng.below(d)).collect(); out(format!("delete {a} {} {ax}", show_list(&req)));
+            for _ in 0..2 { let c: Vec<usize> = (0..d).map(|_| rng.below(3)).collect(); out(format!("repeat {a} {} {ax}", show_list(&c))); }
+            out(format!("repeat {a} 2 {ax}"));
+        }
+        out(format!("delete {a} 0 {nd}")); out(format!("repeat {a} 1 {nd}"));
+        for _ in 0..4 { let k = 3 + rng.below(4); let req: Vec<usize> = (0..k).map(|_| rng.below(n)).collect(); out(format!("delete {a} {} none", show_list(&req)));
+            let pos: Vec<usize> = (0..k).map(|_| rng.below(n + 1)).collect(); out(format!("insert {a} {} {}", show_list(&pos), tag_off(&[k], 1000))); out(format!("insert_delete {a} {} {}", show_list(&pos), tag_off(&[k], 1000))); }
+        out(format!("repeat {a} 2 none")); out(format!("append {a} i3+1000")); out(format!("append_self {a}"));
+    }
+    out("oracle_report final".to_string());
 }
 
 // ------------------------------------------------------------------------------------------------ executor
@@ -274,6 +514,9 @@ fn call<T: ArrayElement>(op: &str, args: &[&str], chained: bool, of: &dyn Fn(i64
         "insert_delete" => { let idx = parse_usize_list(args[1]); let v = mk(args[2], of); let land = landing(&idx);
             if chained { ra.insert(&idx, &v, None).delete(&land, None) } else { match a.insert(&idx, &v, None) { Ok(x) => x.delete(&land, None), Err(e) => Err(e) } } }
         "append" => { let v = mk(args[1], of); if chained { ra.append(&v, None) } else { a.append(&v, None) } }
+        // aliasing: the receiver itself is the `values` argument
+        "append_self" => if chained { ra.append(&a, None) } else { a.append(&a, None) },
+        "insert_self" => { let idx = parse_usize_list(args[1]); if chained { ra.insert(&idx, &a, None) } else { a.insert(&idx, &a, None) } }
         "repeat" => { let reps = parse_usize_list(args[1]); let ax: Option<usize> = parse_opt(args[2]);
             if chained { ra.repeat(&reps, ax) } else { a.repeat(&reps, ax) } }
         "trim" => if chained { ra.trim_zeros() } else { a.trim_zeros() },
@@ -320,7 +563,7 @@ fn bits64(a: &f64, b: &f64) -> bool { a.to_bits() == b.to_bits() }
 fn bits32(a: &f32, b: &f32) -> bool { a.to_bits() == b.to_bits() }
 
 /// structural operations (and `trim` on integer patterns): the i64 run and all its images
-fn run_structural(op: &str, args: &[&str]) -> Option<String> {
+fn run_structural(op: &str, args: &[&str], lite: bool) -> Option<String> {
     let canon = attempt(op, args, false, &|t| t)?;
     if let Out::Val(Ok(a)) = &canon { if !consistent(a) { return Some(format!("INCONSISTENT result (shape/length): {}", out_text(&canon))); } }
     let text = match &canon { Out::Panic => "panic".to_string(), Out::Val(r) => res_arr(r) };
@@ -329,6 +572,11 @@ fn run_structural(op: &str, args: &[&str]) -> Option<String> {
     if let Some(d) = image_diff(&canon, &again, &|t| t, eq) { return Some(format!("RECEIVER-DIVERGENCE element type i64, Result receiver: {d}; plain run: {}", out_text(&canon))); }
     let value_dep = op == "trim";       // images must then map 0 to the zero of the type and everything else to a non-zero
     macro_rules! img { ($name:expr, $of:expr, $same:expr) => { if let Err(d) = images(&canon, op, args, $name, &$of, $same)? { return Some(d); } } }
+    // huge cases: the u8 image only (both receivers)
+    if lite {
+        if value_dep { img!("u8", |t: i64| if t == 0 { 0u8 } else { 255 - ((t - 1).rem_euclid(255)) as u8 }, eq); } else { img!("u8", tag_u8, eq); }
+        return Some(text);
+    }
     if value_dep {
         img!("u8", |t: i64| if t == 0 { 0u8 } else { 255 - ((t - 1).rem_euclid(255)) as u8 }, eq);
         img!("i16", |t: i64| (-(t.rem_euclid(32000))) as i16, eq);
@@ -397,18 +645,205 @@ fn run_trimc(args: &[&str], expected: &str) -> Option<String> {
     Some(first)
 }
 
-fn exec(op: &str, args: &[&str], expected: &str) -> Option<Verdict> {
-    let obs = match op {
-        "delete" | "insert" | "insert_delete" | "append" | "repeat" | "trim" => run_structural(op, args)?,
-        "trimc" => run_trimc(args, expected)?,
+// ---- harness-native reference (index filters and coordinate formulas)
+
+use std::sync::atomic::{AtomicUsize, Ordering};
+static ORACLE_CHECKED: AtomicUsize = AtomicUsize::new(0);
+static ORACLE_SILENT: AtomicUsize = AtomicUsize::new(0);
+static ORACLE_ONLY: AtomicUsize = AtomicUsize::new(0);
+static ABA_RERUNS: AtomicUsize = AtomicUsize::new(0);
+static SEQ_CALLS: AtomicUsize = AtomicUsize::new(0);
+
+type Val = (Vec<usize>, Vec<i64>);
+
+/// keep / repeat the positions of one axis: `count[i]` copies of index i of axis `ax` (0 = deleted), all other coordinates untouched
+fn axis_counts(shape: &[usize], e: &[i64], ax: usize, count: &[usize]) -> Val {
+    let inner: usize = shape[ax + 1..].iter().product(); let outer: usize = shape[..ax].iter().product(); let d = shape[ax];
+    let mut out = Vec::new();
+    for o in 0..outer { for i in 0..d { for _ in 0..count[i] { let at = (o * d + i) * inner; out.extend_from_slice(&e[at..at + inner]); } } }
+    let mut s = shape.to_vec(); s[ax] = count.iter().sum();
+    (s, out)
+}
+fn delete_ref(shape: &[usize], e: &[i64], idx: &[usize], ax: Option<usize>) -> Option<Val> {
+    match ax {
+        None => { if idx.iter().any(|&i| i >= e.len()) { return None; }
+            let mut gone = vec![false; e.len()]; for &i in idx { gone[i] = true; }
+            let out: Vec<i64> = (0..e.len()).filter(|&p| !gone[p]).map(|p| e[p]).collect(); Some((vec![out.len()], out)) }
+        Some(ax) => { if ax >= shape.len() || idx.iter().any(|&i| i >= shape[ax]) { return None; }
+            let mut count = vec![1usize; shape[ax]]; for &i in idx { count[i] = 0; }
+            Some(axis_counts(shape, e, ax, &count)) }
+    }
+}
+/// position p of the OLD flat array receives, before its old element, the values requested for p, in request order
+fn insert_ref(e: &[i64], idx: &[usize], vals: &[i64]) -> Option<Vec<i64>> {
+    let n = e.len();
+    if idx.iter().any(|&i| i > n) { return None; }
+    let k = if idx.len() == vals.len() { idx.len() } else if idx.len() == 1 { vals.len() } else if vals.len() == 1 { idx.len() } else { return None };
+    let mut at: Vec<Vec<i64>> = vec![vec![]; n + 1];
+    for q in 0..k { at[idx[if idx.len() == 1 { 0 } else { q }]].push(vals[if vals.len() == 1 { 0 } else { q }]); }
+    let mut out = Vec::with_capacity(n + k);
+    for p in 0..=n { out.extend_from_slice(&at[p]); if p < n { out.push(e[p]); } }
+    Some(out)
+}
+
+/// The statement of C13 as direct index formulas.  `None` = no opinion (arrays with a zero-length axis, empty requests, value arrays
+/// of rank other than 1, …: judged by the model only); `Some(None)` = the call must be refused.
+fn oracle(op: &str, args: &[&str]) -> Option<Option<Val>> {
+    let (shape, e) = parse_arr_raw(args.first()?);
+    let nd = shape.len(); let n = e.len();
+    if n == 0 || nd == 0 || shape.iter().product::<usize>() != n { return None; }
+    Some(match op {
+        "delete" => { let idx = parse_usize_list(args[1]); let ax: Option<usize> = parse_opt(args[2]); delete_ref(&shape, &e, &idx, ax) }
+        "insert" | "insert_delete" | "insert_self" => {
+            let idx = parse_usize_list(args[1]);
+            let (vs, ve) = if op == "insert_self" { (shape.clone(), e.clone()) } else { parse_arr_raw(args[2]) };
+            if vs.len() != 1 || ve.is_empty() || idx.is_empty() { return None; }
+            match insert_ref(&e, &idx, &ve) {
+                None => None,
+                Some(out) => if op == "insert_delete" { let l = out.len(); delete_ref(&[l], &out, &landing(&idx), None) } else { Some((vec![out.len()], out)) },
+            }
+        }
+        "append" | "append_self" => { let ve = if op == "append_self" { e.clone() } else { parse_arr_raw(args[1]).1 }; let mut out = e.clone(); out.extend_from_slice(&ve); Some((vec![out.len()], out)) }
+        "repeat" => { let reps = parse_usize_list(args[1]); let ax: Option<usize> = parse_opt(args[2]);
+            if reps.is_empty() { return None; }
+            match ax {
+                // one count for every element (a single count, or one per position of the last axis, stretched over the array)
+                None => { let last = shape[nd - 1];
+                    if last == 1 && reps.len() != 1 { return None; }       // a unit last axis: the counts stretch the array instead
+                    if reps.len() != 1 && reps.len() != last { return Some(None); }
+                    let out: Vec<i64> = (0..n).flat_map(|p| std::iter::repeat(e[p]).take(if reps.len() == 1 { reps[0] } else { reps[p % last] })).collect();
+                    Some((vec![out.len()], out)) }
+                Some(ax) => { if ax >= nd { return Some(None); }
+                    if reps.len() != 1 && reps.len() != shape[ax] { return Some(None); }
+                    let count: Vec<usize> = (0..shape[ax]).map(|i| if reps.len() == 1 { reps[0] } else { reps[i] }).collect();
+                    if count.iter().sum::<usize>() == 0 { return None; }
+                    Some(axis_counts(&shape, &e, ax, &count)) }
+            } }
+        "trim" => { if nd != 1 { return Some(None); }
+            let lo = e.iter().position(|&x| x != 0).unwrap_or(n); let hi = e.iter().rposition(|&x| x != 0).map_or(lo, |p| p + 1);
+            let out = e[lo..hi.max(lo)].to_vec(); Some((vec![out.len()], out)) }
         _ => return None,
-    };
+    })
+}
+fn oracle_text(o: &Option<Val>) -> String { match o { Some((s, e)) => format!("ok {}:{}", show_list(s), show_list(e)), None => "err".to_string() } }
+
+/// where two `ok shape:elements` answers differ
+fn diff_detail(obs: &str, want: &str) -> String {
+    let parse = |t: &str| -> Option<(String, Vec<String>)> { let b = t.strip_prefix("ok ")?; let (s, e) = b.split_once(':')?; Some((s.to_string(), e.split(',').map(|x| x.to_string()).collect())) };
+    match (parse(obs), parse(want)) {
+        (Some((so, eo)), Some((sw, ew))) => {
+            if so != sw { return format!("shape {so} instead of {sw}"); }
+            if eo.len() != ew.len() { return format!("{} elements instead of {}", eo.len(), ew.len()); }
+            let bad: Vec<usize> = (0..eo.len()).filter(|&p| eo[p] != ew[p]).collect();
+            match bad.first() { Some(&p) => format!("shape {so}: {} of {} positions differ, the first at flat position {p}: {} instead of {}", bad.len(), eo.len(), eo[p], ew[p]), None => "equal".into() }
+        }
+        _ => format!("`{}` instead of `{}`", truncate(obs, 200), truncate(want, 200)),
+    }
+}
+
+fn elems_of(s: &str) -> usize { let body = s.strip_prefix('i').unwrap_or(s); let sh = body.split(|c| c == '+' || c == ':').next().unwrap_or("-"); parse_usize_list(sh).iter().product() }
+fn is_structural(op: &str) -> bool { matches!(op, "delete" | "insert" | "insert_delete" | "append" | "repeat" | "trim" | "append_self" | "insert_self") }
+/// huge cases run on i64 (both receivers) and the u8 image only
+fn is_huge(args: &[&str]) -> bool { args.iter().map(|a| a.len()).sum::<usize>() > 60_000 || args.first().map_or(0, |a| elems_of(a)) > 20_000 }
+
+/// one ordinary call line against the model's answer; on the way the native reference is compared with the model
+fn exec_call(op: &str, args: &[&str], expected: &str) -> Option<Verdict> {
+    if op == "trimc" { return Some(compare_default(run_trimc(args, expected)?, expected)); }
+    if !is_structural(op) { return None; }
+    let obs = run_structural(op, args, is_huge(args))?;
+    match oracle(op, args) {
+        None => { ORACLE_SILENT.fetch_add(1, Ordering::Relaxed); }
+        Some(o) => {
+            let ot = oracle_text(&o);
+            let agree = if o.is_none() { class_of(expected) == "err" } else { ot == expected };
+            if !agree { return Some(Verdict::Mismatch { observed: obs, detail: format!("ORACLE-VS-MODEL the harness-native reference gives `{}`, the model `{}` ({}) (harness defect: the reference is not usable)", truncate(&ot, 300), truncate(expected, 300), diff_detail(&ot, expected)) }); }
+            ORACLE_CHECKED.fetch_add(1, Ordering::Relaxed);
+        }
+    }
     Some(compare_default(obs, expected))
 }
 
+/// `n call…`: a huge request; the driver answers `ok native`, the crate is judged by the native reference
+fn exec_native(args: &[&str], expected: &str) -> Option<Verdict> {
+    if expected != "ok native" { return Some(compare_default("harness: an `n` line expects the driver to answer `ok native`".into(), expected)); }
+    let (op, rest) = (*args.first()?, &args[1..]);
+    if !is_structural(op) { return None; }
+    let want = oracle_text(&oracle(op, rest)?);      // `n` lines are only generated where the reference has an opinion
+    ORACLE_ONLY.fetch_add(1, Ordering::Relaxed);
+    let obs = run_structural(op, rest, true)?;
+    if obs == want || (class_of(&obs) == "err" && want == "err") { return Some(Verdict::Match(format!("ok native ({} bytes as the harness-native reference)", obs.len()))); }
+    Some(Verdict::Mismatch { detail: format!("differs from the harness-native index reference: {}; reference `{}`", diff_detail(&obs, &want), truncate(&want, 300)), observed: truncate(&obs, 1500) })
+}
+
+thread_local! { static PREV: std::cell::RefCell<Option<(String, Vec<String>, String)>> = const { std::cell::RefCell::new(None) }; }
+/// only the plain call on `Array<i64>` (the A–B–A re-run)
+fn plain_i64(op: &str, args: &[&str]) -> Option<String> { match attempt(op, args, false, &|t| t)? { Out::Panic => Some("panic".into()), Out::Val(r) => Some(res_arr(&r)) } }
+
+fn exec(op: &str, args: &[&str], expected: &str) -> Option<Verdict> {
+    // VERIF_SLOW=<seconds>: name the case lines whose execution takes longer (tuning aid, no influence on the verdicts)
+    let t0 = std::time::Instant::now();
+    let v = exec_line(op, args, expected);
+    if let Some(lim) = std::env::var("VERIF_SLOW").ok().and_then(|s| s.parse::<f64>().ok()) { let dt = t0.elapsed().as_secs_f64(); if dt > lim { eprintln!("slow {dt:.2}s {op} {}", truncate(&args.join(" "), 100)); } }
+    v
+}
+
+fn exec_line(op: &str, args: &[&str], expected: &str) -> Option<Verdict> {
+    match op {
+        "oracle_report" => {
+            let text = format!("ok report: so far the harness-native reference agreed with the full model answer on {} cases (no opinion on {}), {} huge calls judged by the reference only, {} calls inside seq lines, {} implicit A-B-A re-runs",
+                ORACLE_CHECKED.load(Ordering::Relaxed), ORACLE_SILENT.load(Ordering::Relaxed), ORACLE_ONLY.load(Ordering::Relaxed), SEQ_CALLS.load(Ordering::Relaxed), ABA_RERUNS.load(Ordering::Relaxed));
+            if expected != "ok report" { return Some(compare_default(text, expected)); }
+            if args.first() == Some(&"final") && ORACLE_ONLY.load(Ordering::Relaxed) > 0 && ORACLE_CHECKED.load(Ordering::Relaxed) < 1000 {
+                return Some(Verdict::Mismatch { observed: text, detail: "the native reference was relied upon without having been compared with the model on at least 1000 cases of this run".into() });
+            }
+            Some(Verdict::Match(text))
+        }
+        "n" => exec_native(args, expected),
+        "seq" => {
+            let calls: Vec<&[&str]> = args.split(|t| *t == "/").collect();
+            let exps: Vec<&str> = expected.split(" / ").collect();
+            if calls.len() != exps.len() { return Some(compare_default(format!("harness: {} calls but {} model answers", calls.len(), exps.len()), expected)); }
+            let mut texts = vec![]; let mut bad: Option<String> = None;
+            for (q, (c, e)) in calls.iter().zip(&exps).enumerate() {
+                SEQ_CALLS.fetch_add(1, Ordering::Relaxed);
+                let v = if c.first() == Some(&"n") { exec_native(&c[1..], e)? } else { exec_call(c.first()?, &c[1..], e)? };
+                match v {
+                    Verdict::Match(o) | Verdict::Open(o) => texts.push(truncate(&o, 400)),
+                    Verdict::Mismatch { observed, detail } => { if bad.is_none() { bad = Some(format!("call {} of the sequence (`{}`): {}", q + 1, truncate(&c.join(" "), 300), detail)); } texts.push(truncate(&observed, 400)); }
+                }
+            }
+            let obs = texts.join(" / ");
+            Some(match bad { Some(d) => Verdict::Mismatch { observed: obs, detail: d }, None => Verdict::Match(obs) })
+        }
+        _ => {
+            let v = exec_call(op, args, expected)?;
+            if !is_structural(op) { return Some(v); }
+            // implicit A–B–A: after a share of the small cases the PREVIOUS case is run again and must repeat its answer
+            let small = elems_of(args[0]) <= 600 && args.iter().map(|a| a.len()).sum::<usize>() <= 2000;
+            if small && args.iter().map(|a| a.len()).sum::<usize>() % 4 == 1 {
+                if let Some((pop, pargs, pans)) = PREV.with(|p| p.borrow().clone()) {
+                    let pa: Vec<&str> = pargs.iter().map(|s| s.as_str()).collect();
+                    if let Some(again) = plain_i64(&pop, &pa) {
+                        ABA_RERUNS.fetch_add(1, Ordering::Relaxed);
+                        if again != pans { if let Verdict::Match(o) = &v { return Some(Verdict::Mismatch { observed: o.clone(), detail: format!("A-B-A: after this call the previous case `{} {}` no longer repeats its answer: `{}` instead of `{}`", pop, pargs.join(" "), truncate(&again, 300), truncate(&pans, 300)) }); } }
+                    }
+                }
+            }
+            if small { if let Some(ans) = plain_i64(op, args) { PREV.with(|p| *p.borrow_mut() = Some((op.to_string(), args.iter().map(|s| s.to_string()).collect(), ans))); } }
+            Some(v)
+        }
+    }
+}
+
 fn nontrivial(op: &str, args: &[&str]) -> bool {
-    let s = parse_arr_raw(args[0]).0;
-    match op { "trim" | "trimc" => s.iter().product::<usize>() >= 2, _ => args[1] != "-" && s.iter().product::<usize>() >= 2 }
+    match op {
+        "oracle_report" => return false,
+        "seq" => return args.split(|t| *t == "/").any(|c| !c.is_empty() && nontrivial(c[0], &c[1..])),
+        "n" => return args.len() >= 2 && nontrivial(args[0], &args[1..]),
+        _ => {}
+    }
+    let n = elems_of(args[0]);
+    match op { "trim" | "trimc" | "append_self" => n >= 2, _ => args[1] != "-" && n >= 2 }
 }
 
 fn main() {
